@@ -27,26 +27,41 @@ impl<'s> Deref for InputSig<'s> {
 /// Returns the new lifetime parameter, which is then the lifetime of the `__impl` reference:
 /// with a `&self` receiver next to it, elision would pick the wrong input.
 pub fn name_elided_output_lifetimes(sig: &mut syn::Signature) -> Option<syn::Lifetime> {
+    name_elided_lifetimes(sig, false)
+}
+
+/// Like [name_elided_output_lifetimes], for a signature that is about to receive a `&self` receiver:
+/// when exactly one input lifetime is elided, that is the one the output refers to, and it gets the same name.
+pub fn name_elided_input_and_output_lifetimes(sig: &mut syn::Signature) {
+    name_elided_lifetimes(sig, true);
+}
+
+fn name_elided_lifetimes(sig: &mut syn::Signature, with_inputs: bool) -> Option<syn::Lifetime> {
     use syn::visit_mut::VisitMut;
 
     struct Namer {
         lifetime: syn::Lifetime,
-        found: bool,
+        found: usize,
+        rename: bool,
     }
 
     impl VisitMut for Namer {
         fn visit_type_reference_mut(&mut self, reference: &mut syn::TypeReference) {
             if reference.lifetime.is_none() {
-                reference.lifetime = Some(self.lifetime.clone());
-                self.found = true;
+                if self.rename {
+                    reference.lifetime = Some(self.lifetime.clone());
+                }
+                self.found += 1;
             }
             syn::visit_mut::visit_type_reference_mut(self, reference);
         }
 
         fn visit_lifetime_mut(&mut self, lifetime: &mut syn::Lifetime) {
             if lifetime.ident == "_" {
-                *lifetime = self.lifetime.clone();
-                self.found = true;
+                if self.rename {
+                    *lifetime = self.lifetime.clone();
+                }
+                self.found += 1;
             }
         }
 
@@ -61,11 +76,30 @@ pub fn name_elided_output_lifetimes(sig: &mut syn::Signature) -> Option<syn::Lif
 
     let mut namer = Namer {
         lifetime: syn::Lifetime::new("'__impl", proc_macro2::Span::call_site()),
-        found: false,
+        found: 0,
+        rename: false,
     };
+
+    if with_inputs {
+        // count first: with more (or less) than one elided input lifetime the output cannot have elided ones
+        namer.visit_return_type_mut(&mut sig.output);
+        let in_output = std::mem::take(&mut namer.found);
+        for input in sig.inputs.iter_mut() {
+            namer.visit_fn_arg_mut(input);
+        }
+        if in_output == 0 || std::mem::take(&mut namer.found) != 1 {
+            return None;
+        }
+        namer.rename = true;
+        for input in sig.inputs.iter_mut() {
+            namer.visit_fn_arg_mut(input);
+        }
+    }
+
+    namer.rename = true;
     namer.visit_return_type_mut(&mut sig.output);
 
-    if namer.found {
+    if namer.found > 0 {
         sig.generics.params.insert(0, {
             let lifetime = &namer.lifetime;
             syn::parse_quote! { #lifetime }
